@@ -83,7 +83,7 @@ def h_val(field, n, offered=0, at=0, mode=None):
             headers["sec-websocket-protocol"] = sx.sym_str("p", n)
         elif field == "subproto-missing":
             subs = ["chat"]
-        ok, sub = HS._validate(headers, key, subs)
+        ok, sub = sx.unit(HS, "_validate")(headers, key, subs)
         # ---- reference (RFC 6455 4.1, written over the same symbolic values)
         up = headers.get("upgrade")
         co = headers.get("connection")
